@@ -31,6 +31,12 @@ def check_C11(ctx):
                             "owning type, handed to a function that takes ownership, or returned); null edges carry no obligation")
             fd.rule_fd_drop(ctx, cfg, F, mmodel, "ALLOC-DROP", "every type owning a heap block or mapping frees/unmaps it in Drop exactly once, or leaves through a null test")
             ctx.rule("ALLOC-PAIR").floor("sources[%s]" % cfg, 7, cfg)
+    for cfg, F in ctx.configs(["K1"]):
+        # the receiver set owns its members' descriptors through a table of raw integers: the closed arm must close what it removes
+        rset.rule_set_unix(ctx, cfg, F)
+    for cfg, F in ctx.configs(["K1", "K3"]):
+        # attachments parked in the per-thread tables are open descriptors: they must not survive a failed send or decode
+        tls.rule_tls_restore(ctx, cfg, F)
     ctx.assume("kernel: accept(2)/dup(2) do not set FD_CLOEXEC; glibc shm_open does; mio's epoll descriptor is CLOEXEC")
     ctx.assume("panicking (unwind) paths are outside the all-paths rules")
 
@@ -96,6 +102,8 @@ def check_C07(ctx):
         # the router only sees what the set hands out: a member that is not drained starves its handler and never reports closure
         rset.rule_set_unix(ctx, cfg, F)
         ctx.rule("SET-DRAIN").floor("member_reads[%s]" % cfg, 1, cfg)
+        # how the end of an interrupted message is classified decides whether one route is retired (wrongly: known finding) or the whole router stops
+        recv.rule_closed_origin(ctx, cfg, F)
     ctx.assume("Result::map runs its closure iff the receiver is Ok; crossbeam and the receiver set deliver in order (C06)")
 
 
@@ -117,6 +125,9 @@ def check_C16(ctx):
         decode.rule_result_unwrap(ctx, cfg, F)
         ctx.rule("DECODE-RESULT-UNWRAP").floor("decode_calls[%s]" % cfg, 2, cfg)
         tls.rule_tls_restore(ctx, cfg, F)
+        ipcl.rule_idx_base(ctx, cfg, F)
+        decode.rule_decode_reader(ctx, cfg, F)
+        ctx.rule("DECODE-READER").floor("decode_sites[%s]" % cfg, 1, cfg)
     for cfg, F in ctx.configs(["K1", "K2"]):
         model = fd.build_model(F)
         fd.rule_fd_drop(ctx, cfg, F, model)
@@ -134,6 +145,9 @@ def check_C15(ctx):
     for cfg, F in ctx.configs(["K1", "K2"]):
         send.rule_fd_bound(ctx, cfg, F)
         ctx.rule("FD-BOUND").floor("first_fragment_sites[%s]" % cfg, 2, cfg)
+        # "never delivered with attachments mis-assigned or left to hang the receiver": the per-message descriptor is last and every descriptor is classified by its own test
+        send.rule_dedicated_last(ctx, cfg, F)
+        ipcl.rule_split_classify(ctx, cfg, F)
     ctx.assume("the kernel truncates control data beyond msg_controllen and the receiver does not inspect MSG_CTRUNC, so the bound must be enforced by the sender")
 
 
@@ -150,6 +164,9 @@ def check_C18(ctx):
     for cfg, F in ctx.configs(["K1", "K2"]):
         mem.rule_setlen_cap(ctx, cfg, F)
         ctx.rule("SETLEN-CAP").floor("set_len_sites[%s]" % cfg, 1, cfg)
+        send.rule_fd_bound(ctx, cfg, F)       # what is written into / expected from the receiver's control buffer stays within its capacity
+        mem.rule_uaf_guard(ctx, cfg, F)
+        ctx.rule("UAF-GUARD").floor("guards[%s]" % cfg, 1, cfg)
         with fd.domain("mem"):
             model = fd.build_model(F)
             fd.rule_fd_path(ctx, cfg, F, model, "ALLOC-PAIR", "every malloc/mmap result is, on every normal path, released exactly once: freed/unmapped, "
@@ -250,6 +267,8 @@ def check_C12(ctx):
         recv.rule_errno_fresh(ctx, cfg, F)
         ctx.rule("ERRNO-FRESH").floor("read_sites[%s]" % cfg, 2, cfg)
         recv.rule_msg_commit(ctx, cfg, F)
+        if cfg == "K1":
+            rset.rule_set_unix(ctx, cfg, F)       # what the set does with the channel of an interrupted message: retire it completely or not at all
         # the attachments of an interrupted message are released on the error exit (a leaked attached sender keeps another channel from ever disconnecting)
         fd.rule_fd_path(ctx, cfg, F, fd.build_model(F))
         send.rule_frag_route(ctx, cfg, F)
@@ -558,6 +577,8 @@ def check_C20(ctx):
         ctx.rule("AS-DRAIN").floor("install_sites[%s]" % cfg, 1, cfg)
         ctx.rule("AS-FWD").floor("message_paths[%s]" % cfg, 1, cfg)
         ctx.rule("AS-REMOVE").floor("closed_paths[%s]" % cfg, 1, cfg)
+    for cfg, F in ctx.configs(["K4"]):
+        rset.rule_set_unix(ctx, cfg, F)
     for c in ("K4", "K5"):
         if c in ctx.unavailable:
             ctx.rule("BUILD").violate("%s:does-not-compile" % c, "the async configuration %s does not compile: %s" % (c, ctx.unavailable[c][0]), config=c)
